@@ -355,6 +355,8 @@ def run(prop, tier):
             worlds += [("lzma", "one", 0, "bigc"), ("zstd", "one", 0, "bigc"), ("lz4", "two", 1, "bigc")]
         if prop == "C04":
             worlds.append(("none", "two", 2, 1, "alternatives"))
+    if os.environ.get("VERIF_WORLDS"):          # (debugging aid: the worlds of one run given by hand, as JSON)
+        worlds = [tuple(w) for w in json.loads(os.environ["VERIF_WORLDS"])]
     events, nontrivial, total = [], set(), 0
     case_index = {}
     confirmed_bad = 0       # crashes / hangs confirmed alone: after a few of them the verdict is reached and the sweep stops
